@@ -12,6 +12,8 @@
 (***************************************************************************)
 EXTENDS BlotsEval, TLC, Json
 
+CONSTANT Deep      \* TRUE: also three nested calling contexts
+
 N(v) == ENum(v)
 Plus(x, y) == EBin("add", x, y)
 F == EId("f")
@@ -35,21 +37,51 @@ Defs == <<
   [name |-> "captured-list",    setup |-> <<EAsg("g", EList(<<N(1), N(2)>>)), EAsg("f", ELam(<<Req("x")>>, EIdx(G, X)))>>, call |-> "one"],
   [name |-> "self-name-captured", setup |-> <<EAsg("f", EDo(<<EAsg("g", N(5)), EAsg("g", ELam(<<Req("x")>>, Plus(G, X)))>>, G))>>, call |-> "one"],
   [name |-> "self-name-in-do",  setup |-> <<EAsg("f", ELam(<<Req("x")>>, EDo(<<EAsg("g", N(5)), EAsg("g", ELam(<<Req("y")>>, Plus(G, EId("y"))))>>, ECall(G, <<X>>))))>>, call |-> "one"],
-  [name |-> "optional-rest",    setup |-> <<EAsg("g", N(10)), EAsg("f", ELam(<<Req("x"), Prm("y", "opt"), Prm("z", "rest")>>, EList(<<X, EId("y"), EId("z"), G>>)))>>, call |-> "one"]
+  [name |-> "optional-rest",    setup |-> <<EAsg("g", N(10)), EAsg("f", ELam(<<Req("x"), Prm("y", "opt"), Prm("z", "rest")>>, EList(<<X, EId("y"), EId("z"), G>>)))>>, call |-> "one"],
+  \* data values in the captured scope: records (field, shorthand, spread, computed key), strings, spreads, logical operators
+  [name |-> "captured-record-field", setup |-> <<EAsg("g", ERec(<<RStatic(<<12>>, N(10))>>)), EAsg("f", ELam(<<Req("x")>>, Plus(X, EDot(G, <<12>>))))>>, call |-> "one"],
+  [name |-> "captured-shorthand",    setup |-> <<EAsg("a", N(10)), EAsg("f", ELam(<<Req("x")>>, ERec(<<RShort("a"), RStatic(<<13>>, X)>>)))>>, call |-> "one"],
+  [name |-> "captured-record-spread", setup |-> <<EAsg("g", ERec(<<RStatic(<<12>>, N(10))>>)), EAsg("f", ELam(<<Req("x")>>, ERec(<<RSpreadE(G), RStatic(<<13>>, X)>>)))>>, call |-> "one"],
+  [name |-> "captured-computed-key", setup |-> <<EAsg("g", ELit(Str(<<12>>))), EAsg("f", ELam(<<Req("x")>>, EDot(ERec(<<RDyn(G, X)>>), <<12>>)))>>, call |-> "one"],
+  [name |-> "captured-list-spread",  setup |-> <<EAsg("g", EList(<<N(1), N(2)>>)), EAsg("f", ELam(<<Req("x")>>, ECall(EId("sum"), <<ESpread(G), X>>)))>>, call |-> "one"],
+  [name |-> "closure-in-record",     setup |-> <<EAsg("g", N(10)), EAsg("h", ERec(<<RStatic(<<12>>, ELam(<<Req("x")>>, Plus(X, G)))>>)), EAsg("f", EDot(EId("h"), <<12>>))>>, call |-> "one"],
+  [name |-> "closure-in-list",       setup |-> <<EAsg("g", N(10)), EAsg("h", EList(<<ELam(<<Req("x")>>, Plus(X, G))>>)), EAsg("f", ELam(<<Req("x")>>, ECall(EIdx(EId("h"), N(0)), <<X>>)))>>, call |-> "one"],
+  [name |-> "coalesce-default",      setup |-> <<EAsg("g", ELit(Null)), EAsg("f", ELam(<<Req("x"), Prm("y", "opt")>>, Plus(X, EBin("coalesce", EId("y"), EBin("coalesce", G, N(5))))))>>, call |-> "one"],
+  [name |-> "logical-body",          setup |-> <<EAsg("g", ELit(Bool(TRUE))), EAsg("f", ELam(<<Req("x")>>, EIf(EBin("and", G, EUn("not", EBin("lt", X, N(0)))), EUn("neg", X), X)))>>, call |-> "one"],
+  [name |-> "alias-keeps-capture",   setup |-> <<EAsg("g", N(10)), EAsg("h", ELam(<<Req("x")>>, Plus(X, G))), EAsg("f", EId("h"))>>, call |-> "one"],
+  \* binders inside the body that reuse the name of a captured outer variable, before / after a free use of it
+  [name |-> "inner-param-then-outer-use", setup |-> <<EAsg("g", N(10)), EAsg("f", ELam(<<Req("x")>>, Plus(ECall(ELam(<<Req("g")>>, EBin("mul", G, N(2))), <<X>>), G)))>>, call |-> "one"],
+  [name |-> "outer-use-then-inner-param", setup |-> <<EAsg("g", N(10)), EAsg("f", ELam(<<Req("x")>>, Plus(G, ECall(ELam(<<Req("g")>>, EBin("mul", G, N(2))), <<X>>))))>>, call |-> "one"],
+  [name |-> "inner-do-local-then-outer-use", setup |-> <<EAsg("g", N(10)), EAsg("f", ELam(<<Req("x")>>, Plus(EDo(<<EAsg("g", N(1))>>, Plus(G, X)), G)))>>, call |-> "one"],
+  [name |-> "callback-param-then-outer-use", setup |-> <<EAsg("g", N(10)), EAsg("f", ELam(<<Req("x")>>, Plus(ECall(EId("sum"), <<EBin("via", EList(<<X, N(2)>>), ELam(<<Req("g")>>, G))>>), G)))>>, call |-> "one"],
+  [name |-> "two-inner-lambdas",          setup |-> <<EAsg("g", N(10)), EAsg("k", N(20)), EAsg("f", ELam(<<Req("x")>>, EList(<<ELam(<<Req("g")>>, Plus(G, EId("k"))), ELam(<<Req("k")>>, Plus(G, EId("k"))), G, EId("k")>>)))>>, call |-> "one"],
+  \* parameters named like things the call itself puts into scope
+  [name |-> "param-named-inputs",         setup |-> <<EAsg("f", ELam(<<Req("inputs"), Req("x")>>, EList(<<EId("inputs"), X>>)))>>, call |-> "two"],
+  [name |-> "param-named-like-itself",    setup |-> <<EAsg("f", ELam(<<Req("f")>>, Plus(F, N(1))))>>, call |-> "one"],
+  [name |-> "param-named-like-itself-2",  setup |-> <<EAsg("g", N(10)), EAsg("f", ELam(<<Req("x"), Prm("f", "opt")>>, EList(<<X, F, G>>)))>>, call |-> "two"],
+  [name |-> "rest-from-spread",      setup |-> <<EAsg("g", EList(<<N(7), N(8)>>)), EAsg("f", ELam(<<Req("x"), Prm("z", "rest")>>, EList(<<X, EId("z"), ECall(EId("len"), <<G>>)>>)))>>, call |-> "spread"]
 >>
 
 CallOn(fe, how) == CASE how = "one"     -> ECall(fe, <<N(1)>>)
                      [] how = "two"     -> ECall(fe, <<N(1), N(2)>>)
                      [] how = "zero"    -> ECall(fe, <<>>)
                      [] how = "curried" -> ECall(ECall(fe, <<N(1)>>), <<N(2)>>)
+                     [] how = "spread"  -> ECall(fe, <<N(1), ESpread(EList(<<N(2), N(3)>>))>>)
 
 \* ------------------------------------------------------------------ calling contexts
-CtxNames == {"top", "param-g", "param-x", "param-f-arg", "do-local-g", "do-local-h", "do-local-k", "via-callback", "where-callback",
+CtxNames == {"param-k", "record-field", "list-item", "if-branch", "spread-source", "logical-operand", "param-a", "top", "param-g", "param-x", "param-f-arg", "do-local-g", "do-local-h", "do-local-k", "via-callback", "where-callback",
              "map-callback", "reduce-callback", "passed-as-value", "after-refused-redefinition", "param-inputs", "nested-do-in-fn"}
 \* pre: extra statements run before (may fail); e: the expression whose value is observed; post: how the observed value relates to the call's
 CtxOf(cn, E, how) ==
   LET Q == Req("q") IN
   CASE cn = "top"          -> [pre |-> <<>>, e |-> E, wrap |-> "id"]
+    [] cn = "record-field" -> [pre |-> <<>>, e |-> EDot(ERec(<<RStatic(<<13>>, N(0)), RStatic(<<12>>, E)>>), <<12>>), wrap |-> "id"]
+    [] cn = "list-item"    -> [pre |-> <<>>, e |-> EIdx(EList(<<N(0), E>>), N(1)), wrap |-> "id"]
+    [] cn = "if-branch"    -> [pre |-> <<>>, e |-> EIf(EBin("lt", N(0), N(1)), E, N(0)), wrap |-> "id"]
+    [] cn = "spread-source" -> [pre |-> <<>>, e |-> EList(<<ESpread(EList(<<E>>))>>), wrap |-> "list1"]
+    [] cn = "logical-operand" -> [pre |-> <<>>, e |-> EBin("coalesce", ELit(Null), E), wrap |-> "id"]
+    [] cn = "param-a"      -> [pre |-> <<>>, e |-> ECall(ELam(<<Req("a")>>, E), <<N(99)>>), wrap |-> "id"]
+    [] cn = "param-k"      -> [pre |-> <<>>, e |-> ECall(ELam(<<Req("k")>>, E), <<N(99)>>), wrap |-> "id"]
     [] cn = "param-g"      -> [pre |-> <<>>, e |-> ECall(ELam(<<Req("g")>>, E), <<N(99)>>), wrap |-> "id"]
     [] cn = "param-x"      -> [pre |-> <<>>, e |-> ECall(ELam(<<Req("x")>>, E), <<N(99)>>), wrap |-> "id"]
     [] cn = "param-f-arg"  -> [pre |-> <<>>, e |-> ECall(ELam(<<Req("y")>>, E), <<N(99)>>), wrap |-> "id"]
@@ -67,8 +99,9 @@ CtxOf(cn, E, how) ==
 
 Ctx(cn, how) == CtxOf(cn, CallOn(F, how), how)
 \* two nested contexts (the inner one must leave the call's value as it is)
-IdCtx == {"param-g", "param-x", "do-local-g", "do-local-k", "reduce-callback", "param-inputs", "nested-do-in-fn"}
+IdCtx == {"param-k", "record-field", "list-item", "if-branch", "param-a", "param-g", "param-x", "do-local-g", "do-local-k", "reduce-callback", "param-inputs", "nested-do-in-fn"}
 Ctx2(outer, inner, how) == CtxOf(outer, CtxOf(inner, CallOn(F, how), how).e, how)
+Ctx3(outer, mid, inner, how) == CtxOf(outer, CtxOf(mid, CtxOf(inner, CallOn(F, how), how).e, how).e, how)
 
 \* ------------------------------------------------------------------ parameter lists for the args family
 ParamLists == {[i \in 1..(r + o + z) |-> IF i <= r THEN Prm(<<"p1", "p2">>[i], "req")
@@ -77,6 +110,7 @@ ParamLists == {[i \in 1..(r + o + z) |-> IF i <= r THEN Prm(<<"p1", "p2">>[i], "
 
 VARIABLE c
 Init == \/ c \in {[fam |-> "ctx", d |-> d, cn |-> cn, inner |-> ""] : d \in 1..Len(Defs), cn \in CtxNames}
+        \/ Deep /\ c \in {[fam |-> "ctx", d |-> d, cn |-> cn, inner |-> i, mid |-> m] : d \in 1..Len(Defs), cn \in CtxNames \ {"passed-as-value", "after-refused-redefinition", "top"}, i \in IdCtx, m \in IdCtx}
         \/ c \in {[fam |-> "ctx", d |-> d, cn |-> cn, inner |-> i] : d \in 1..Len(Defs), cn \in CtxNames \ {"passed-as-value", "after-refused-redefinition", "top"}, i \in IdCtx}
         \/ c \in {[fam |-> "args", ps |-> ps, n |-> n] : ps \in ParamLists, n \in 0..7}
 Next == UNCHANGED c
@@ -86,12 +120,17 @@ Spec == Init /\ [][Next]_c
 Root == [EmptyFrame EXCEPT !["inputs"] = Rec(<<<<12>>>>, <<Fin(7)>>)]   \* inputs = {a: 7}
 RECURSIVE RunAll(_, _)
 RunAll(ss, env) == IF ss = <<>> THEN env ELSE RunAll(Tail(ss), Eval(Head(ss), env, 0).env)
-ProjV(v) == IF v.t = "fn" THEN [t |-> "fn"] ELSE IF v.t = "list" THEN List([i \in 1..Len(v.xs) |-> IF v.xs[i].t = "fn" THEN [t |-> "fn"] ELSE v.xs[i]]) ELSE v
+RECURSIVE ProjV(_)
+ProjV(v) == CASE v.t = "fn"   -> [t |-> "fn"]
+              [] v.t = "list" -> List([i \in 1..Len(v.xs) |-> ProjV(v.xs[i])])
+              [] v.t = "rec"  -> Rec(v.ks, [i \in 1..Len(v.vs) |-> ProjV(v.vs[i])])
+              [] OTHER        -> v
 
 D == Defs[c.d]
 EnvDef == RunAll(D.setup, <<Root>>)
 TopRes == Eval(CallOn(F, D.call), EnvDef, 0).v
-K == IF c.inner = "" THEN Ctx(c.cn, D.call) ELSE Ctx2(c.cn, c.inner, D.call)
+HasMid == "mid" \in DOMAIN c
+K == IF c.inner = "" THEN Ctx(c.cn, D.call) ELSE IF HasMid THEN Ctx3(c.cn, c.mid, c.inner, D.call) ELSE Ctx2(c.cn, c.inner, D.call)
 CtxRes == Eval(K.e, RunAll(K.pre, EnvDef), 0).v
 Fval == Lookup(EnvDef, "f")
 Unwrap(v, how) == CASE how = "id" -> v [] how = "list1" -> IF IsList(v) /\ Len(v.xs) = 1 THEN v.xs[1] ELSE v [] how = "none" -> v
@@ -115,7 +154,7 @@ ArgsLaw == c.fam = "args" =>
 
 Emit == PrintT(<<"CASE", ToJson(
           IF c.fam = "ctx"
-          THEN [fam |-> "ctx", def |-> D.name, ctx |-> (IF c.inner = "" THEN c.cn ELSE c.cn \o " > " \o c.inner), setup |-> D.setup, pre |-> K.pre, e |-> K.e, top |-> CallOn(F, D.call),
+          THEN [fam |-> "ctx", def |-> D.name, ctx |-> (IF c.inner = "" THEN c.cn ELSE IF HasMid THEN c.cn \o " > " \o c.mid \o " > " \o c.inner ELSE c.cn \o " > " \o c.inner), setup |-> D.setup, pre |-> K.pre, e |-> K.e, top |-> CallOn(F, D.call),
                 wrap |-> K.wrap, closed |-> (IsFn(Fval) /\ ClosedAfterCapture(Fval)), expTop |-> ProjV(TopRes), expCtx |-> ProjV(CtxRes)]
           ELSE [fam |-> "args", ps |-> c.ps, n |-> c.n, e |-> ArgsCall, exp |-> ProjV(ArgsRes)])>>)
 =============================================================================
